@@ -7,6 +7,7 @@ import Sml.Model.Parser
 import Sml.Model.Complete
 import Sml.Model.Streaming
 import Sml.Model.SmlReader
+import Sml.Model.DecodeFallible
 import Sml.Spec.Frame
 /-
   `smlmodel`: runs the executable definitions of the Lean model behind a line protocol.
@@ -333,6 +334,49 @@ def doDec (cov : Array Nat) : List String → String × Array Nat
       | (some evs, cov) => (joinSp evs, cov)
   | _ => (bad, cov)
 
+/-- `decf <i1,i2,…|-> <op>*`: the push decoder over a growable buffer (`Decoder<Vec<u8>>`) whose allocator
+fails during the bytes with the given indices (1-based count of bytes pushed so far, as in the response
+tokens): the first `buf.push` attempted while that byte is processed reports `OutOfMemory`; all other pushes
+succeed.  Ops as for `dec` (byte strings, `F`, `R`); through `DecF.push` / `DecF.step` -/
+def doDecF : List String → String
+  | fails :: ops =>
+    let failIdx : Option (List Nat) :=
+      if fails = "-" then some [] else (fails.splitOn ",").mapM (·.toNat?)
+    match failIdx with
+    | none => bad
+    | some failIdx =>
+      let rec pushBytes (d : Dec) (idx : Nat) (acc : List String) :
+          List UInt8 → Dec × Nat × List String
+        | [] => (d, idx, acc)
+        | b :: bs =>
+          let idx := idx + 1
+          let f : DecF := { d := d, alloc := if failIdx.contains idx then [false] else [] }
+          let (f', o) := f.push b
+          match showOut o with
+          | none => pushBytes f'.d idx acc bs
+          | some s => pushBytes f'.d idx (s!"{idx}:{s}" :: acc) bs
+      let rec go (d : Dec) (idx : Nat) (acc : List String) : List String → Option (List String)
+        | [] => some acc.reverse
+        | "F" :: rest =>
+          match (({ d := d, alloc := [] } : DecF).step .fin) with
+          | (f', .fin none) => go f'.d idx (s!"{idx}:F:-" :: acc) rest
+          | (f', .fin (some e)) => go f'.d idx (s!"{idx}:F:{showErr e}" :: acc) rest
+          | _ => none
+        | "R" :: rest =>
+          match (({ d := d, alloc := [] } : DecF).step .reset) with
+          | (f', .reset n) => go f'.d idx (s!"{idx}:R:{n}" :: acc) rest
+          | _ => none
+        | tok :: rest =>
+          match parseBytes tok with
+          | none => none
+          | some bs =>
+            let (d', idx', acc') := pushBytes d idx acc bs
+            go d' idx' acc' rest
+      match go (Dec.fresh none) 0 [] ops with
+      | none => bad
+      | some evs => joinSp evs
+  | _ => bad
+
 /-- `decode <bytes>`: the `decode()` front-end -/
 def doDecode : List String → String
   | [s] =>
@@ -573,6 +617,7 @@ def handle (cov : Array Nat) (line : String) : String × Array Nat :=
   | "enci" :: args => (doEnci args, cov)
   | "encinf" :: args => (doEncInf args, cov)
   | "frame" :: args => (doFrame args, cov)
+  | "decf" :: args => (doDecF args, cov)
   | "decode" :: args => (doDecode args, cov)
   | "iter" :: args => (doIter args, cov)
   -- non-fused sources: the iterator reports `None` after the first segment although more items would
